@@ -109,6 +109,19 @@ func c04Random(r *ev.Rand) *hx.Script {
 	created := 0
 	nops := r.Range(3, 14)
 	attrN := map[string]int{}
+	// one history in six starts with two datasets of the same name, the one inside a group
+	// created first, and is always split over two sessions (handles are opened by path)
+	twin := r.Chance(1, 6)
+	if twin {
+		va, vb := hx.GenNumeric(r, "[]i32", 3, 2), hx.GenNumeric(r, "[]i32", 3, 3)
+		s.Ops = append(s.Ops, hx.Op{K: "group", Path: "/ga"},
+			hx.Op{K: "create_ds", Path: "/ga/same", DT: "i32", Dims: []uint64{3}, Data: &va},
+			hx.Op{K: "create_ds", Path: "/same", DT: "i32", Dims: []uint64{3}, Data: &vb})
+		groups = append(groups, "/ga")
+		dss = append(dss, "/ga/same", "/same")
+		created = 2
+		nops += 3
+	}
 	for len(s.Ops) < nops {
 		k := r.Weighted([]int{3, 3, 6, 2, 2, 2, 2, 1, 1})
 		if created < 2 {
@@ -120,8 +133,22 @@ func c04Random(r *ev.Rand) *hx.Script {
 				continue
 			}
 			p := fmt.Sprintf("/d%d", created)
+			if r.Chance(1, 3) {
+				// the same leaf name in several groups ("/d0", "/g1/d0", "/g1/g2/d0"): a path is
+				// more than its last component
+				p = fmt.Sprintf("/d%d", created%2)
+			}
 			if len(groups) > 0 && r.Bool() {
 				p = groups[r.Intn(len(groups))] + p
+			}
+			dup := false
+			for _, q := range dss {
+				if q == p {
+					dup = true
+				}
+			}
+			if dup {
+				p = fmt.Sprintf("%s_%d", p, created)
 			}
 			n := uint64(r.Range(1, 12))
 			op := hx.Op{K: "create_ds", Path: p, DT: []string{"i32", "f64", "u64", "f32"}[r.Intn(4)], Dims: []uint64{n}}
@@ -264,8 +291,11 @@ func c04Random(r *ev.Rand) *hx.Script {
 	// one history in three is split over two sessions: Close, OpenForWrite, the datasets
 	// created so far opened again (groups have no reopen call: later operations on them are
 	// skipped by the interpreter), and the rest of the history runs in the second session
-	if r.Chance(1, 3) && len(s.Ops) > 2 {
+	if (twin || r.Chance(1, 3)) && len(s.Ops) > 2 {
 		pos := r.Range(2, len(s.Ops))
+		if twin {
+			pos = r.Range(3, min(5, len(s.Ops)))
+		}
 		ops := append([]hx.Op(nil), s.Ops[:pos]...)
 		ops = append(ops, hx.Op{K: "close"}, hx.Op{K: "reopen"})
 		for _, op := range s.Ops[:pos] {
